@@ -46,7 +46,7 @@ pub fn defs() -> Vec<PropDef> {
                 "variable_payload_lengths": vgen::VAR_LENGTHS, "oversize_lengths": vgen::OVERSIZE_LENGTHS,
                 "hidden": "attribute type all 65536 x value lengths {0,1,15,16,17,32,1008,1017}",
                 "avp_lists": {"pairs_over_menu": vgen::list_menu().len(), "triples_over_submenu": 16, "quadruples_over_submenu": t.thorough(), "size_sweep_octets": "65529..=65550"},
-                "data_messages": "priority x length {None, true, wrong} x ids x ns_nr x offset {None,0,1,|data|-1,|data|,0xffff} x payload {1,2,3,16,1500,65523}",
+                "data_messages": "priority x length {None, true, wrong} x ids x ns_nr x offset {None,0,1,|data|-1,|data|,0xffff} x payload {1,2,3,16,1500,65523}; plus every 16-bit value of tunnel id, session id, Ns, Nr, offset size (with that much padding) and length (with a payload of that size), one field at a time",
             })
         },
         assumptions: COMMON_ASSUMPTIONS,
@@ -638,6 +638,54 @@ fn run_values(ctx: &mut Ctx) {
         }
     }
     if which == Which::C04 || which == Which::C06 {
+        // every 16-bit value of every data-message field, one field at a time (complete per field)
+        for field in 0..6 {
+            for x in 0..=0xffffu32 {
+                if !ctx.mine() {
+                    continue;
+                }
+                let x = x as u16;
+                let (mut tid, mut sid, mut ns, mut nr) = (gen::TID, gen::SID, gen::NS, gen::NR);
+                let mut offset = None;
+                let mut length = None;
+                let mut data = ramp(5);
+                match field {
+                    0 => tid = x,
+                    1 => sid = x,
+                    2 => ns = x,
+                    3 => nr = x,
+                    4 => {
+                        // offset size x with exactly x padding octets and 2 payload octets
+                        offset = Some(x);
+                        data = ramp(x as usize + 2);
+                    }
+                    _ => {
+                        // length field = true size, every size 15..=65535 that fits
+                        if x < 15 {
+                            continue;
+                        }
+                        length = Some(x);
+                        data = ramp(x as usize - 14);
+                    }
+                }
+                if field == 4 && x as usize + 2 + 12 > 70_000 {
+                    continue;
+                }
+                ctx.states += 1;
+                ctx.transitions += 1;
+                let m = SMessage::Data {
+                    prio: x & 1 == 1,
+                    length,
+                    tid,
+                    sid,
+                    ns_nr: Some((ns, nr)),
+                    offset,
+                    data,
+                };
+                let desc = || msg_json(&m);
+                ctx.case(&desc, |ctx| check_data(ctx, &m));
+            }
+        }
         for prio in [false, true] {
             for ids in [(gen::TID, gen::SID), (0, 0), (0xffff, 0xffff), (0, 0xffff)] {
                 for ns_nr in [None, Some((gen::NS, gen::NR)), Some((0xffff, 0)), Some((0, 0xffff))] {
